@@ -956,10 +956,23 @@ func (g *G) sig(depth int, inner bool) *Sig {
 	if np > 0 && g.Chance(18) {
 		last := &s.Params[np-1]
 		el := last.T
-		if g.Chance(25) {
+		anyPct := 25
+		if g.P.ExecSafe {
+			anyPct = 45 // `...any` is the one shape where a dropped `...` still compiles: keep it frequent where mocks are executed
+		}
+		variadicAny := false
+		if g.Chance(anyPct) {
 			el = basic("any", true)
+			variadicAny = true
 			g.label("sig:variadic-any")
 		}
+		defer func() {
+			// ... and half of those without results (the two delegation branches of the template differ)
+			if variadicAny && g.P.ExecSafe && !inner && len(s.Results) > 0 && g.Chance(50) {
+				s.Results = nil
+				g.label("sig:variadic-any-no-results")
+			}
+		}()
 		last.T = &Ty{K: KSlice, Elem: el}
 		s.Variadic = true
 		g.label("sig:variadic")
